@@ -84,7 +84,7 @@ CANARIES = [
 
 
 def build(G):
-    begin(G, preludes=("bytes.rs", "std.rs", "bytesmut.rs"))
+    begin(G, preludes=("bytes.rs", "std.rs", "net.rs", "bytesmut.rs"))
     name_types(G, tryfrom=False)
     G.raw("use vstd::std_specs::char::is_white_space;")
     from units.upstream_filter import _r24
